@@ -24,15 +24,15 @@ STAGES['C14'] = {
                                                           SALTS='<<"sixteen", "one", "long", "zeros">>', SUFFIXES='<<"plain", "printable", "b64", "long">>', VIAS='{"smtp"}', ABORTS='{""}')),
               ('retry-same-auth-object', 'SaslHonest', dict(MECHS=ALLMECH, UCLASSES='{"ascii", "comma"}', PCLASSES='{"ascii"}', WRONGS='{"", "pass"}',
                                                            TLSVERS='{"1.2", "1.3"}', RETRY='{TRUE}', ITERS='<<4096, 1>>', SALTS='<<"sixteen">>',
-                                                           SUFFIXES='<<"plain", "printable">>', VIAS='{"smtp", "client"}', ABORTS='{"", "t4", "drop"}')),
+                                                           SUFFIXES='<<"plain", "printable">>', VIAS='{"smtp", "client", "custom"}', ABORTS='{"", "t4", "drop"}')),
               ('through-mail-client', 'SaslHonest', dict(MECHS=ALLMECH, UCLASSES='{"ascii", "unicode", "comma", "eq"}', PCLASSES='{"ascii", "unicode", "space"}', WRONGS='{"", "pass", "user"}',
                                                         TLSVERS='{"1.2", "1.3"}', RETRY='{FALSE}', ITERS='<<4096, 600>>', SALTS='<<"sixteen", "long">>',
-                                                        SUFFIXES='<<"plain", "b64">>', VIAS='{"client"}', ABORTS='{""}'))],
+                                                        SUFFIXES='<<"plain", "b64">>', VIAS='{"client", "custom"}', ABORTS='{""}'))],
     'thorough': [('honest-all-mechanisms', 'SaslHonest', dict(MECHS=ALLMECH, UCLASSES='{"ascii", "unicode", "comma", "eq", "both", "empty", "ctl", "space", "long"}',
                                                              PCLASSES='{"ascii", "unicode", "comma", "eq", "both", "empty", "ctl", "space", "long"}', WRONGS='{"", "pass", "user"}',
                                                              TLSVERS='{"1.2", "1.3"}', RETRY='BOOLEAN', ITERS='<<1, 2, 4096, 20000, 600>>',
                                                              SALTS='<<"sixteen", "one", "long", "zeros">>', SUFFIXES='<<"plain", "printable", "b64", "long">>',
-                                                             VIAS='{"smtp", "client"}', ABORTS='{"", "t4", "drop"}'))],
+                                                             VIAS='{"smtp", "client", "custom"}', ABORTS='{"", "t4", "drop"}'))],
 }
 SEED_PASSES = {('C14', 'thorough'): 8, ('C15', 'thorough'): 3}
 INVS_BY_BASE = {'SaslHonest': ['AcceptedIffRight', 'Emit']}
